@@ -21,15 +21,18 @@
 (*                                                                           *)
 (* Map iterations and non-passed generators found in the code (the list the  *)
 (* check replays; `reach` says whether the order/value can reach the output) *)
-(*   cf.varspecs    ssa2ast/func.go:1121-1150  f.Vars -> groupedVar -> specs: one ValueSpec per type in MAP order   reach *)
-(*   cf.varnames    ssa2ast/func.go:1145       names inside one spec: sort.Strings                                   no    *)
-(*   tr.packages    ctrlflow/trash.go:230      ssaProg.AllPackages() (map) -> order of t.pkgFunctions               reach *)
-(*   tr.members     ctrlflow/trash.go:235      p.Members (map) -> order of t.globals and of every pkgFuncs slice     reach *)
-(*   tr.vars        ctrlflow/trash.go:278,352,387,399,495  vars / groupedCandidates maps -> candidate slices indexed by rnd  reach *)
-(*   tr.generators  ctrlflow/trash.go:157,320  valueGenerators (map) -> candidates slice indexed by rnd              reach *)
+(*   cf.varspecs    ssa2ast/func.go:1120-1155  f.Vars -> groupedVar -> specs: grouped in SORTED name order (since the    *)
+(*                  fix "emit control-flow variable declarations in a deterministic order"; before: MAP order)   no    *)
+(*   cf.varnames    ssa2ast/func.go            names inside one spec: sorted                                         no    *)
+(*   tr.packages    ctrlflow/trash.go          ssaProg.AllPackages() (map) -> order of t.pkgFunctions: sorted by path    no [+]  *)
+(*   tr.members     ctrlflow/trash.go          p.Members (map) -> order of t.globals and of every pkgFuncs slice: sorted no [+]  *)
+(*   tr.vars        ctrlflow/trash.go          vars / groupedCandidates maps -> candidate slices indexed by rnd: sorted  no [+]  *)
+(*   tr.generators  ctrlflow/trash.go          valueGenerators (map) -> candidates slice indexed by rnd: sorted          no [+]  *)
+(*                  [+] since the fix "generate control-flow trash blocks in a deterministic order"; before: reach      *)
 (*   tr.finalize    ctrlflow/trash.go:547      for _, v := range vars: per-element update, order-insensitive         no    *)
-(*   hd.xorlen      ctrlflow/hardening.go:78   mathrand.Intn (GLOBAL) = length of secondKey, then rnd.Read(len)      reach *)
-(*   hd.tablelen    ctrlflow/hardening.go:152  mathrand.Intn (GLOBAL) = keySize of the delegate table                reach *)
+(*   hd.xorlen      ctrlflow/hardening.go:78   rnd.Intn = length of secondKey, then rnd.Read(len) (since the fix "draw   *)
+(*                  control-flow hardening key sizes from the build's random source"; before: GLOBAL math/rand)  no    *)
+(*   hd.tablelen    ctrlflow/hardening.go:152  rnd.Intn = keySize of the delegate table (same fix)                   no    *)
 (*   cf.imports     ctrlflow/ctrlflow.go:166   imports map: lookup only, names numbered in first-use order           no    *)
 (*   tf.fieldmap    transformer.go:129         for _, tv := range info.Types: builds a map, order-insensitive        no    *)
 (*   tf.reflnames   reflect.go (reflectMainPostPatch) sorted keys                                                     no    *)
@@ -41,6 +44,9 @@ CONSTANTS
   WithCtrlFlow, \* TRUE: the package has //garble:controlflow functions (GARBLE_EXPERIMENTAL_CONTROLFLOW=1)
   WithTrash, WithHardening, WithLiterals,
   ClockSeed,    \* what-if (mutant): rnd is seeded from the clock when -seed is absent
+  SortedTrash,     \* TRUE as the code has it since its fix (candidates sorted before the draw); FALSE = before
+  SortedVarSpecs,  \* TRUE as the code has it since its fix; FALSE = the code before (what-if)
+  GlobalKeySizes,  \* FALSE as the code has it since its fix; TRUE = key sizes from the process-global source (what-if)
   SortedReflNames, \* TRUE as the code has it; FALSE = what-if (mutant): reflectMainPostPatch ranges over the map
   LeaksFile
 
@@ -50,21 +56,21 @@ CONSTANTS
 Step(id, src, reach, ndraw, on) == [id |-> id, src |-> src, reach |-> reach, ndraw |-> ndraw, on |-> on]
 Pipeline ==
   << Step("lit.obfuscator",  "rnd",    TRUE,  1, WithLiterals),
-     Step("tr.packages",     "map",    TRUE,  0, WithCtrlFlow /\ WithTrash),
-     Step("tr.members",      "map",    TRUE,  0, WithCtrlFlow /\ WithTrash),
+     Step("tr.packages",     "map",    ~SortedTrash,  0, WithCtrlFlow /\ WithTrash),
+     Step("tr.members",      "map",    ~SortedTrash,  0, WithCtrlFlow /\ WithTrash),
      Step("cf.trashmarkers", "rnd",    TRUE,  1, WithCtrlFlow /\ WithTrash),
      Step("cf.split",        "rnd",    TRUE,  1, WithCtrlFlow),
      Step("cf.junk",         "rnd",    TRUE,  1, WithCtrlFlow),
      Step("cf.flatten",      "rnd",    TRUE,  1, WithCtrlFlow),
-     Step("hd.xorlen",       "global", TRUE,  0, WithCtrlFlow /\ WithHardening),
-     Step("hd.xorread",      "rnd",    TRUE,  -1, WithCtrlFlow /\ WithHardening),
+     Step("hd.xorlen",       IF GlobalKeySizes THEN "global" ELSE "rnd", TRUE, IF GlobalKeySizes THEN 0 ELSE 1, WithCtrlFlow /\ WithHardening),
+     Step("hd.xorread",      "rnd",    TRUE,  IF GlobalKeySizes THEN -1 ELSE 1, WithCtrlFlow /\ WithHardening),
      Step("hd.keys",         "rnd",    TRUE,  1, WithCtrlFlow /\ WithHardening),
-     Step("hd.tablelen",     "global", TRUE,  0, WithCtrlFlow /\ WithHardening),
-     Step("tr.generators",   "map",    TRUE,  0, WithCtrlFlow /\ WithTrash),
-     Step("tr.vars",         "map",    TRUE,  0, WithCtrlFlow /\ WithTrash),
+     Step("hd.tablelen",     IF GlobalKeySizes THEN "global" ELSE "rnd", TRUE, IF GlobalKeySizes THEN 0 ELSE 1, WithCtrlFlow /\ WithHardening),
+     Step("tr.generators",   "map",    ~SortedTrash,  0, WithCtrlFlow /\ WithTrash),
+     Step("tr.vars",         "map",    ~SortedTrash,  0, WithCtrlFlow /\ WithTrash),
      Step("tr.pick",         "rnd",    TRUE,  1, WithCtrlFlow /\ WithTrash),
      Step("tr.finalize",     "map",    FALSE, 0, WithCtrlFlow /\ WithTrash),
-     Step("cf.varspecs",     "map",    TRUE,  0, WithCtrlFlow),
+     Step("cf.varspecs",     "map",    ~SortedVarSpecs, 0, WithCtrlFlow),
      Step("cf.varnames",     "map",    FALSE, 0, WithCtrlFlow),
      Step("cf.imports",      "map",    FALSE, 0, WithCtrlFlow),
      Step("tf.fieldmap",     "map",    FALSE, 0, TRUE),
